@@ -59,13 +59,16 @@ theorem cap_mode : capMap.general.mode = .taiko := cap_content.1
 
 /-! ### the fields of `DecodedDomain`, each evaluated in the kernel -/
 
-theorem cap_chronological : Chronological capState.hitObjects.core.hitObjects := by
-  have key : capState.hitObjects.core.hitObjects.length ≤ 1 := by decide +kernel
+/-- a list of at most one object is chronological. -/
+theorem chronological_of_length_le_one (l : List (HitObject ZC ZC)) (h : l.length ≤ 1) : Chronological l := by
   unfold Chronological
-  generalize capState.hitObjects.core.hitObjects = l at key
-  match l, key with
+  match l, h with
   | [], _ => exact List.Pairwise.nil
   | [a], _ => exact List.pairwise_singleton _ a
+  | _ :: _ :: _, h => simp at h
+
+theorem cap_chronological : Chronological capState.hitObjects.core.hitObjects :=
+  chronological_of_length_le_one _ (by decide +kernel)
 
 /-- the ghost log: three accepted `[TimingPoints]` lines, all applied in taiko, at times 0, 0, 500. -/
 theorem cap_log :
